@@ -235,8 +235,8 @@ def run(ck, F, tier):
             "parity inserts %s ; required %s" % (sorted(par), sorted(exp_par)))
     ck.inst("T4", "h:no-other-writes", not found["other"], found["other"][0].site if found["other"] else hb.span,
             "no other matrix mutation or early exit in Code::h" if not found["other"] else "unexpected %s" % found["other"][0].callee)
-    retname = strip(hb.value["e"]) if hb.value.get("e") else {}
-    ck.inst("T4", "h:returns-h", retname.get("k") == "path" and retname.get("name", "").startswith("h#"), hb.span,
+    from ..panics import unwrap_mut
+    ck.inst("T4", "h:returns-h", isinstance(ret, Poly) and unwrap_mut(ret) == app("sparse::SparseMatrix::new", M, N), hb.span,
             "the matrix built is the value returned")
     ck.floor("T4", "matrix writes in Code::h", len(found["info"]) + len(found["parity"]), 4)
 
